@@ -251,9 +251,16 @@ func (m *VM) step(i int, op *Op) *Rec {
 				}
 			} else {
 				var bld biscuit.Builder
-				if op.RootID != nil {
+				switch {
+				case len(op.Base) > 0 && op.RootID != nil:
+					st := datalog.SymbolTable(append([]string{}, op.Base...))
+					bld = biscuit.NewBuilder(k.Priv, biscuit.WithRNG(rnd), biscuit.WithRootKeyID(*op.RootID), biscuit.WithSymbols(&st))
+				case len(op.Base) > 0:
+					st := datalog.SymbolTable(append([]string{}, op.Base...))
+					bld = biscuit.NewBuilder(k.Priv, biscuit.WithRNG(rnd), biscuit.WithSymbols(&st))
+				case op.RootID != nil:
 					bld = biscuit.NewBuilder(k.Priv, biscuit.WithRNG(rnd), biscuit.WithRootKeyID(*op.RootID))
-				} else {
+				default:
 					bld = biscuit.NewBuilder(k.Priv, biscuit.WithRNG(rnd))
 				}
 				tmp.Bld = bld
@@ -274,7 +281,7 @@ func (m *VM) step(i int, op *Op) *Rec {
 					v := *op.RootID
 					abs.RootID = &v
 				}
-				m.put(op.Out, &TokObj{B: tok, Abs: abs, RootKey: op.A, Created: i, SignEvents: []int{i}})
+				m.put(op.Out, &TokObj{B: tok, Abs: abs, RootKey: op.A, Created: i, SignEvents: []int{i}, Base: op.Base})
 			}
 		}
 	case "bb":
@@ -347,7 +354,7 @@ func (m *VM) step(i int, op *Op) *Rec {
 				if abs != nil {
 					abs.Sealed = true
 				}
-				m.put(op.Out, &TokObj{B: nt, Abs: abs, Parent: op.A, RootKey: t.RootKey, Created: i, Hostile: t.Hostile, Sealed: true, SignEvents: append([]int(nil), t.SignEvents...)})
+				m.put(op.Out, &TokObj{B: nt, Abs: abs, Parent: op.A, RootKey: t.RootKey, Created: i, Hostile: t.Hostile, Sealed: true, SignEvents: append([]int(nil), t.SignEvents...), Base: t.Base})
 			}
 		}
 	case "ser":
@@ -361,7 +368,7 @@ func (m *VM) step(i int, op *Op) *Rec {
 			rec.Err = errStr(err)
 			rec.Class = okClass(err)
 			if err == nil {
-				m.put(op.Out, &BlobObj{Data: b, Abs: t.Abs.Clone(), RootKey: t.RootKey, FromTok: op.A, Hostile: t.Hostile, SignEvents: append([]int(nil), t.SignEvents...)})
+				m.put(op.Out, &BlobObj{Data: b, Abs: t.Abs.Clone(), RootKey: t.RootKey, FromTok: op.A, Hostile: t.Hostile, SignEvents: append([]int(nil), t.SignEvents...), Base: t.Base})
 			}
 		}
 	case "unm":
@@ -374,7 +381,14 @@ func (m *VM) step(i int, op *Op) *Rec {
 			// the receive buffer belongs to the caller, who re-uses it as soon as Unmarshal has
 			// returned: hand the library a private copy and overwrite it afterwards
 			buf := append(make([]byte, 0, len(bl.Data)+16), bl.Data...)
-			tok, err := biscuit.Unmarshal(buf)
+			var tok *biscuit.Biscuit
+			var err error
+			if len(bl.Base) > 0 {
+				st := datalog.SymbolTable(append([]string{}, bl.Base...))
+				tok, err = (&biscuit.Unmarshaler{Symbols: &st}).Unmarshal(buf)
+			} else {
+				tok, err = biscuit.Unmarshal(buf)
+			}
 			for i := range buf {
 				buf[i] = ^buf[i]
 			}
@@ -383,7 +397,7 @@ func (m *VM) step(i int, op *Op) *Rec {
 			rec.Err = errStr(err)
 			rec.Class = okClass(err)
 			if tok != nil && err == nil {
-				m.put(op.Out, &TokObj{B: tok, Abs: bl.Abs.Clone(), RootKey: bl.RootKey, FromBlob: op.A, Created: i, Hostile: bl.Hostile || bl.Mutated, Sealed: bl.Abs != nil && bl.Abs.Sealed, SignEvents: append([]int(nil), bl.SignEvents...)})
+				m.put(op.Out, &TokObj{B: tok, Abs: bl.Abs.Clone(), RootKey: bl.RootKey, FromBlob: op.A, Created: i, Hostile: bl.Hostile || bl.Mutated, Sealed: bl.Abs != nil && bl.Abs.Sealed, SignEvents: append([]int(nil), bl.SignEvents...), Base: bl.Base})
 			}
 		}
 	case "mut":
@@ -392,7 +406,7 @@ func (m *VM) step(i int, op *Op) *Rec {
 			skip("no blob")
 			break
 		}
-		nb := &BlobObj{Data: append([]byte(nil), bl.Data...), RootKey: bl.RootKey, FromTok: bl.FromTok, Mutated: true, Hostile: bl.Hostile, Muts: append([]string(nil), bl.Muts...)}
+		nb := &BlobObj{Data: append([]byte(nil), bl.Data...), RootKey: bl.RootKey, FromTok: bl.FromTok, Mutated: true, Hostile: bl.Hostile, Muts: append([]string(nil), bl.Muts...), Base: bl.Base}
 		for _, mu := range op.Muts {
 			var donor []byte
 			if d := m.Blob(op.B); d != nil {
@@ -712,7 +726,7 @@ func (m *VM) doAppend(rec *Rec, op *Op, i int, t *TokObj, blk *biscuit.Block, co
 		if abs != nil {
 			abs.Blocks = append(abs.Blocks, content.Clone())
 		}
-		m.put(op.Out, &TokObj{B: nt, Abs: abs, Parent: op.A, RootKey: t.RootKey, Created: i, Hostile: t.Hostile, SignEvents: append(append([]int(nil), t.SignEvents...), i)})
+		m.put(op.Out, &TokObj{B: nt, Abs: abs, Parent: op.A, RootKey: t.RootKey, Created: i, Hostile: t.Hostile, SignEvents: append(append([]int(nil), t.SignEvents...), i), Base: t.Base})
 	}
 }
 
